@@ -461,13 +461,28 @@ impl DateFilter for ds::MonthdayRange {
                     ));
                 }
 
+                // A bound attached to a specific year has to be considered whatever the distance
+                // to the evaluated date is.
+                let mut years: Vec<i32> = (year - 1..=year + 10).collect();
+
+                if let Some(start_year) = date_year(start) {
+                    years.extend([start_year, start_year + 1]);
+                }
+
+                if let Some(end_year) = date_year(end) {
+                    years.push(end_year);
+                }
+
+                years.sort_unstable();
+                years.dedup();
+
                 Some(next_change_from_bounds(
                     date,
-                    (year - 1..=year + 10)
-                        .filter_map(|y| date_on_year(*start, y, valid_ymd_after))
+                    (years.iter())
+                        .filter_map(|y| date_on_year(*start, *y, valid_ymd_after))
                         .map(|d| start_offset.apply(d)),
-                    (year - 1..=year + 10)
-                        .filter_map(|y| date_on_year(*end, y, valid_ymd_before))
+                    (years.iter())
+                        .filter_map(|y| date_on_year(*end, *y, valid_ymd_before))
                         .map(|d| end_offset.apply(d)),
                 ))
             }
